@@ -10,7 +10,17 @@ Fixpoint prefixb (a b : list tx) : bool :=
   match a, b with [] , _ => true | x :: xs, y :: ys => tx_eqb x y && prefixb xs ys | _, _ => false end.
 (* evs: what the real BatchMaker was fed; obs: the batches it sealed after each event (exact bytes decoded);
    panicked: whether the task died; flags: [stored under the hash of the exact bytes; digest announced = that hash;
-   broadcast bytes = handed-on bytes] as observed on the real Processor/network *)
+   broadcast bytes = handed-on bytes; each acknowledgement handler is paired with the name of the peer it was sent to]
+   as observed on the real Processor/network *)
+(* after every timer event nothing accepted so far is left unsealed: [got] transactions received, [out] sealed so far *)
+Fixpoint timer_seals (evs : list bev) (obs : list (list (list tx))) (got out : nat) : bool :=
+  match evs, obs with
+  | e :: er, o :: or =>
+      let got' := match e with BTx _ => S got | BTimer => got end in
+      let out' := (out + length (concat o))%nat in
+      (match e with BTimer => Nat.eqb got' out' | BTx _ => true end) && timer_seals er or got' out'
+  | _, _ => true
+  end.
 Definition batch_case (bench : bool) (bs : N) (evs : list bev) (obs : list (list (list tx))) (panicked : bool) (flags : list bool) : list N :=
   let '(model, mp) := brun_ev bench bs (mkBM [] 0) evs in
   let sealed := concat obs in
@@ -20,4 +30,5 @@ Definition batch_case (bench : bool) (bs : N) (evs : list bev) (obs : list (list
                  unsealed after a timer event; sealing happens as soon as the threshold is reached; no panic *)
               [ b2n (prefixb (concat sealed) (txs_of evs));
                 b2n (forallb (fun b => negb (is_nil b)) sealed);
-                b2n (negb panicked) ] ++ map b2n flags).
+                b2n (negb panicked);
+                b2n (panicked || timer_seals evs obs 0 0) ] ++ map b2n flags).
